@@ -58,6 +58,12 @@ struct Gen {
                                     2147483647.0, 2147483648.0, -2147483648.0, -2147483649.0, 0.5, 1e21, 123456.7};
       return rng.pick(pool);
     }
+    if (o.awkward_numbers && rng.chance(0.18)) {   // binade boundaries: +-2^k and its two neighbours (where the spacing of
+                                                   // doubles changes: the special case of every shortest-digits printer)
+      double p = std::ldexp(1.0, (int)rng.range(-1074, 1023));
+      switch (rng.below(4)) { case 0: p = std::nextafter(p, 0.0); break; case 1: p = std::nextafter(p, INFINITY); break; default: break; }
+      return rng.chance(0.5) ? p : -p;
+    }
     if (o.awkward_numbers && rng.chance(0.3)) {   // random bit patterns (finite)
       for (;;) {
         uint64_t b = rng.next();
